@@ -386,7 +386,7 @@ func WorkerMain(t *testing.T) {
 			first++
 		}
 	}
-	maxRSS := int64(envInt("VERIF_MAXRSS_MB", 3000)) << 20
+	maxRSS := int64(envInt("VERIF_MAXRSS_MB", 2000)) << 20
 	for run, iter := first, 0; run < total; run, iter = run+nworkers, iter+1 {
 		if time.Now().After(deadline) {
 			completed = false
